@@ -394,6 +394,9 @@ class SimGitHub:
         sha = (data or {}).get('sha')
         self.ctx.probe('merge_put')
         self.log.add('ci', 'merge_put', number, sha)
+        # what CI held when it decided to merge: no await separates is_mergeable() from this point, whereas
+        # ci.ci.retry_pr may reset pr.batch (outside the update lock) while the request is in flight
+        held = self.w.ci_decision_state(number)
         await self._leg()
         self._maybe_fail('merge')
         p = self.prs.get(number)
@@ -407,7 +410,7 @@ class SimGitHub:
         elif self.w.conflict(p.head, self.branches[p.base]):
             refusal = (405, 'conflict')
         # the monitor: every merge PUT that reaches GitHub
-        self.w.on_merge_put(number, sha, refusal)
+        self.w.on_merge_put(number, sha, refusal, held)
         if refusal is not None:
             self.ctx.probe('merge_refused_' + refusal[1])
             self.log.add('github', 'merge_refused', number, refusal[1])
